@@ -155,7 +155,23 @@ func genC03(r *gen.Rand) *C03Case {
 			// same extension as the target: the format is chosen by the name that is opened
 			link := filepath.Join(dir, "lnk."+procsim.Ext(top))
 			tgt := filepath.Base(top)
-			if r.Chance(0.3) {
+			if r.Chance(0.5) {
+				// the link lives in another directory than its target: the
+				// parent is looked up next to the target, not next to the link
+				ldir := c03Dir + "/links"
+				w.Dirs = append(w.Dirs, ldir)
+				link = filepath.Join(ldir, "lnk."+procsim.Ext(top))
+				rp, _ := filepath.Rel(ldir, top)
+				tgt = rp
+				if r.Chance(0.5) {
+					// a file next to the link that carries the parent's name must not be picked up
+					parts := strings.Split(filepath.Base(top), ".")
+					decoy := strings.Join(parts[:len(parts)-2], ".")
+					put(filepath.Join(ldir, decoy+".yaml"), map[string]any{"decoy_next_to_link": true})
+				}
+				c.Shape = append(c.Shape, "symlink-other-directory")
+			}
+			if r.Chance(0.2) {
 				tgt = "@ABS@/" + top
 			}
 			w.Links = append(w.Links, procsim.Link{Path: link, Target: tgt})
